@@ -920,7 +920,12 @@ fn execute_inner(
             .filter_map(|n| Model::lookup(&sess.model.top, n).map(|v| (n.clone(), v)))
             .collect();
         crate::model::UNSUPPORTED_RAISED.with(|c| c.set(false));
+        sess.model.poisoned.clear();
+        let catches_before = sess.model.probes.get("catch_ran").copied().unwrap_or(0);
         let model_r = sess.model.eval(&top, &st.ex);
+        // a failure caught INSIDE the statement is a failed statement too, as far as the variables
+        // it names are concerned
+        let caught_inside = sess.model.probes.get("catch_ran").copied().unwrap_or(0) > catches_before;
         // HEAD refuses some operations only because they are not implemented for a kind of value
         // (pop on a vector, a nested write under an absent key of a defaulted dict, a whole-valued
         // rational as an index, slice assignment without `every`, ...). No property says they must
@@ -965,52 +970,6 @@ fn execute_inner(
             }
             (Outcome::Raised, Outcome::Raised) => {
                 stats.raised += 1;
-                let regions = crate::region::regions(&st.ex);
-                let names = sess.model.struct_names();
-                for (name, old) in pre.iter() {
-                    let cur = match Model::lookup(&sess.model.top, name) {
-                        Some(v) => v,
-                        None => continue,
-                    };
-                    let ms = match sess.model_canon(&cur) {
-                        Ok(a) => a,
-                        _ => continue,
-                    };
-                    let is = match sess.observe_var(name) {
-                        Some(is) => is,
-                        None => continue,
-                    };
-                    if is == ms {
-                        continue;
-                    }
-                    // the implementation left something else in a variable the failed statement
-                    // names: fine when that is the old value (the statement failed atomically) ...
-                    if let Ok(os) = sess.model_canon(old) {
-                        if is == os {
-                            sess.model.adopt_var(name, old.clone());
-                            sess.model.probe("failed_statement_left_old_value");
-                            continue;
-                        }
-                    }
-                    // ... or as long as only the slots it addresses differ from before
-                    let new_v = match Env::try_borrow_get_var(&sess.env, name) {
-                        Ok(o) => match obs::obj_to_v(&o, &names) {
-                            Some(v) => v,
-                            None => continue,
-                        },
-                        Err(_) => continue,
-                    };
-                    let mut paths: Vec<Vec<crate::region::Step>> =
-                        regions.iter().filter(|(n, _)| n == name).map(|(_, p)| p.clone()).collect();
-                    if paths.is_empty() {
-                        // written some other way (a closure the statement calls): addressed as a whole
-                        paths.push(Vec::new());
-                    }
-                    if crate::region::allowed(old, &new_v, &paths) {
-                        sess.model.adopt_var(name, new_v);
-                        sess.model.probe("failed_statement_state_adopted");
-                    }
-                }
             }
             (Outcome::Escaped(a), Outcome::Escaped(b)) if a == b => {}
             (Outcome::Value(_), _) | (_, Outcome::Value(_)) if soft => {
@@ -1029,9 +988,79 @@ fn execute_inner(
             }
         }
 
+        if caught_inside || matches!((&impl_out, &model_out), (Outcome::Raised, Outcome::Raised)) {
+            let regions = crate::region::regions(&st.ex);
+            let names = sess.model.struct_names();
+            for (name, old) in pre.iter() {
+                let cur = match Model::lookup(&sess.model.top, name) {
+                    Some(v) => v,
+                    None => continue,
+                };
+                let ms = match sess.model_canon(&cur) {
+                    Ok(a) => a,
+                    _ => continue,
+                };
+                let is = match sess.observe_var(name) {
+                    Some(is) => is,
+                    None => continue,
+                };
+                if is == ms {
+                    continue;
+                }
+                // the implementation left something else in a variable the failed statement
+                // names: fine when that is the old value (the statement failed atomically) ...
+                if let Ok(os) = sess.model_canon(old) {
+                    if is == os {
+                        sess.model.adopt_var(name, old.clone());
+                        sess.model.probe("failed_statement_left_old_value");
+                        continue;
+                    }
+                }
+                // ... or as long as only the slots it addresses differ from before
+                let new_v = match Env::try_borrow_get_var(&sess.env, name) {
+                    Ok(o) => match obs::obj_to_v(&o, &names) {
+                        Some(v) => v,
+                        None => continue,
+                    },
+                    Err(_) => continue,
+                };
+                let mut paths: Vec<Vec<crate::region::Step>> =
+                    regions.iter().filter(|(n, _)| n == name).map(|(_, p)| p.clone()).collect();
+                if paths.is_empty() {
+                    // written some other way (a closure the statement calls): addressed as a whole
+                    paths.push(Vec::new());
+                }
+                if crate::region::allowed(old, &new_v, &paths) {
+                    sess.model.adopt_var(name, new_v);
+                    sess.model.probe("failed_statement_state_adopted");
+                }
+            }
+            // variables the failed statement itself declared: whatever they hold now
+            for name in may_write.iter() {
+                if pre.iter().any(|(n, _)| n == name) {
+                    continue;
+                }
+                let cur = match Model::lookup(&sess.model.top, name) {
+                    Some(v) => v,
+                    None => continue,
+                };
+                let (ms, is) = match (sess.model_canon(&cur), sess.observe_var(name)) {
+                    (Ok(a), Some(b)) => (a, b),
+                    _ => continue,
+                };
+                if ms != is {
+                    if let Ok(o) = Env::try_borrow_get_var(&sess.env, name) {
+                        if let Some(v) = obs::obj_to_v(&o, &names) {
+                            sess.model.adopt_var(name, v);
+                            sess.model.probe("failed_statement_state_adopted");
+                        }
+                    }
+                }
+            }
+        }
         let h = match compare_state(sess, idx, &src) {
             Ok(h) => h,
-            Err(RunEnd::Violation(_)) if soft && matches!(impl_out, Outcome::Value(_)) => {
+            Err(RunEnd::Violation(_)) if soft => {
                 return RunEnd::Inconclusive("beyond HEAD: the model refused an operation HEAD does not implement".into());
             }
             Err(end) => {
